@@ -321,7 +321,7 @@ pub fn gen_timing(t: &mut Tape, mode: u8, avoid: Avoid) -> Vec<String> {
         let bl: &str = if uninh {
             *t.pick(&["500", "333.33", "1", "100000", "0.5", "300", "-20", "0", "6", "60000"])
         } else {
-            let mut b = *t.pick(&["-100", "-50", "-200", "-1000", "-2000", "-5", "-1", "-133.33", "-100", "NaN", "-7", "50", "-10", "-12.5"]);
+            let mut b = *t.pick(&["-100", "-50", "-200", "-1000", "-2000", "-5", "-1", "-133.33", "-100", "NaN", "-7", "50", "-10", "-12.5", "-199.99999999999997", "-200.00000000000003", "-100.00000000000001"]);
             if avoid.k2 && scroll_mode && b == "-2000" {
                 b = "-1000";
             }
